@@ -1,2 +1,59 @@
-From ZC Require Import Model.Base Model.Register Model.Node.
-Example C17_placeholder : True. Proof. exact I. Qed.
+(* C17 - shutdown is complete and quiet. Statements only.
+   Model/Node.v: every transmission of the node passes the `done` gate (Zeroconf.async_send returns at once when done); LUnregisterAll /
+   LGoodbyeAll = async_unregister_all_services; LClose = _close().  Tied to the real instance by label replay: registration coroutines,
+   announcement tasks, queue timers and deferred queries keep producing labels after the close (Corr/Node.v).
+   What the model cannot exhibit and the oracle of props/c17.py observes instead: user callbacks (browser, lookup) after the close, and
+   exceptions raised by timers left behind. *)
+From ZC Require Import Model.Base Model.PyRec Model.Dict Model.Cache Model.Respond Model.Route Model.WireEnc Model.OutQueue
+  Model.Register Model.Node Gen.Const Gen.Extra Gen.DnsPure Spec.AnswerSpec
+  Proofs.C03_reg Proofs.C08_records Proofs.C08_withdraw Proofs.C17_shutdown.
+
+(* once done, whatever happens next - datagrams, queue timers, deferred queries, registration coroutines and announcement tasks that
+   were in progress, further API calls - nothing is transmitted, and the instance stays done *)
+Theorem C17_closed_quiet : forall n ls, n_done n = true ->
+  (forall outs o, In outs (nrun n ls) -> In o outs -> is_send o = false) /\ n_done (nstate n ls) = true.
+Proof. exact closed_quiet. Qed.
+
+(* closing emits nothing by itself, and closing again is a no-op *)
+Theorem C17_close_idempotent : forall n t t',
+  snd (nstep n (LClose t)) = [] /\ n_done (fst (nstep n (LClose t))) = true /\
+  nstep (fst (nstep n (LClose t))) (LClose t') = (fst (nstep n (LClose t)), []).
+Proof. exact close_idempotent. Qed.
+
+(* before the sockets close, every registered service is withdrawn: one message with the PTR, SRV, TXT, address and NSEC records of
+   every service at TTL 0, sent three times; the registry is empty afterwards and the responder answers nothing *)
+Theorem C17_shutdown_goodbyes : forall n now n' outs,
+  J (n_reg n) -> n_done n = false ->
+  nstep n (LUnregisterAll now) = (n', outs) ->
+  let rs := goodbye_all (n_reg n) in
+  n_reg n' = empty_registry /\ g_services (n_reg n') = [] /\
+  (registered (n_reg n) = [] -> outs = [OEnd]) /\
+  (registered (n_reg n) <> [] ->
+     outs = [OSend now None (broadcast_msg rs)] /\
+     (forall t2 t3, nrun n' [LGoodbyeAll t2; LGoodbyeAll t3] =
+                    [[OSend t2 None (broadcast_msg rs)]; [OSend t3 None (broadcast_msg rs)]] /\
+                    nstate n' [LGoodbyeAll t2; LGoodbyeAll t3] = n')) /\
+  (forall s x, In s (registered (n_reg n)) ->
+     In x ([dns_pointer s; dns_service s; dns_text s] ++ address_and_nsec s) -> In (set_ttl 0 x) rs) /\
+  (forall r, In r rs -> p_ttl r = 0) /\
+  (forall c msgs id addr port, handle_assembled_query (n_reg n') c msgs id addr port = []).
+Proof. exact shutdown_goodbyes. Qed.
+
+(* J holds for every registry with a history (Proofs/C03_reg.v J_run) *)
+Theorem C17_shutdown_goodbyes_reachable : forall n ops now,
+  n_reg n = reg_run ops -> n_done n = false ->
+  n_reg (fst (nstep n (LUnregisterAll now))) = empty_registry /\
+  (registered (n_reg n) <> [] ->
+   snd (nstep n (LUnregisterAll now)) = [OSend now None (broadcast_msg (goodbye_all (n_reg n)))]).
+Proof. exact shutdown_goodbyes_reachable. Qed.
+
+(* the whole of async_close, from ANY node state: after the three goodbyes and _close() nothing is sent any more *)
+Theorem C17_after_close_sequence : forall n t1 t2 t3 t4 ls outs t d m,
+  In outs (skipn 4 (nrun n ([LUnregisterAll t1; LGoodbyeAll t2; LGoodbyeAll t3; LClose t4] ++ ls))) -> ~ In (OSend t d m) outs.
+Proof. exact after_close_sequence_no_send. Qed.
+
+Theorem C17_empty_registry_silent : forall c msgs id addr port, handle_assembled_query empty_registry c msgs id addr port = [].
+Proof. exact empty_registry_silent. Qed.
+
+Print Assumptions C17_closed_quiet. Print Assumptions C17_close_idempotent. Print Assumptions C17_shutdown_goodbyes.
+Print Assumptions C17_shutdown_goodbyes_reachable. Print Assumptions C17_after_close_sequence. Print Assumptions C17_empty_registry_silent.
